@@ -4,18 +4,19 @@
 # extra checks) against it with tools/try_patch.sh, and stores it under seeded/<ID>-<V>/ when confirmed.
 set -u
 ID="$1"; V="$2"; shift 2
+PROP="${ID%%r*}"
 cd "$(dirname "$0")/.."
 SRC=/tmp/seeded-out/$ID
 ver=$(tools/verify_seed.sh "$ID" "$V" 2>&1); vrc=$?
 echo "$ver" | tail -6
-det=$(tools/try_patch.sh "$SRC/$V.patch.diff" quick "$ID" "$@" 2>&1)
+det=$(tools/try_patch.sh "$SRC/$V.patch.diff" quick "$PROP" "$@" 2>&1)
 echo "$det"
 if [ $vrc -ne 0 ]; then echo "NOT KEPT (not confirmed)"; exit 1; fi
 D=seeded/$ID-$V; mkdir -p "$D"
 cp "$SRC/$V.patch.diff" "$D/patch.diff"; cp "$SRC/$V.demo.rs" "$D/demo.rs"; cp "$SRC/$V.notes.md" "$D/notes.md"
-python3 - "$ID" "$V" "$D" <<PY
+python3 - "$PROP" "$V" "$D" "$ID" <<PY
 import json, sys, re
-ID, V, D = sys.argv[1:4]
+ID, V, D, FULL = sys.argv[1:5]
 ver = """$ver"""
 det = """$det"""
 files = sorted(set(re.findall(r'^\+\+\+ b/(\S+)', open(D + '/patch.diff').read(), re.M)))
@@ -26,7 +27,7 @@ for l in det.splitlines():
         detection[m.group(1)] = {"tier": "quick", "exit": int(m.group(2)), "violation_lines": int(m.group(3)), "first_cluster": m.group(4)[:300]}
 notes = open(D + '/notes.md').read()
 meta = {
-    "id": f"{ID}-{V}",
+    "id": f"{FULL}-{V}",
     "breaks_property": ID,
     "written_by": "fresh sub-agent given only the property text and a scratch worktree",
     "files_changed": files,
